@@ -31,6 +31,7 @@ SrcOf(c, m) == { i \in 1..NSrc(c) : c.mgr[i] = m }
 Pos(c, i) == Cardinality({ j \in SrcOf(c, c.mgr[i]) : j < i })
 NBits(c, m) == Cardinality(SrcOf(c, m))
 MaxClearLatency == 3
+MaxSrc == 6                                          \* sources per DUT (all managers together)
 
 Inputs(c) ==
   LET TR == 0..(2^NSrc(c) - 1) IN
@@ -42,9 +43,9 @@ Inputs(c) ==
 
 CInit ==
   /\ tprev = 0
-  /\ ep  = [i \in 1..3 |-> 0]
+  /\ ep  = [i \in 1..MaxSrc |-> 0]
   /\ een = [m \in 1..2 |-> 0]
-  /\ cw  = [i \in 1..3 |-> {}]
+  /\ cw  = [i \in 1..MaxSrc |-> {}]
   /\ rd  = <<>>
   /\ obs = [okirq |-> TRUE, okpend |-> TRUE, okclear |-> TRUE, okstatus |-> TRUE, okenable |-> TRUE,
             okshared |-> TRUE, okread |-> TRUE]
@@ -84,11 +85,11 @@ CStep(c, iv, o) ==
       regval(m, r) == CASE r = 0 -> M(o, m)[3] [] r = 1 -> M(o, m)[2] [] r = 2 -> M(o, m)[4] [] OTHER -> 0
   IN
   /\ tprev' = trig
-  /\ ep'  = [i \in 1..3 |-> IF i > NSrc(c) THEN 0
+  /\ ep'  = [i \in 1..MaxSrc |-> IF i > NSrc(c) THEN 0
                             ELSE IF Fire(i) THEN 1                      \* the trigger wins over a clear
                             ELSE IF Clr(i) = 1 THEN 0 ELSE ep[i]]
   /\ een' = [m \in 1..2 |-> IF wr(m, 2) THEN iv[5] % (2^NBits(c, m)) ELSE een[m]]
-  /\ cw'  = [i \in 1..3 |-> IF i > NSrc(c) THEN {}
+  /\ cw'  = [i \in 1..MaxSrc |-> IF i > NSrc(c) THEN {}
                             ELSE aged(i) \cup (IF wr(c.mgr[i], 1) /\ Bit(iv[5], Pos(c, i)) = 1 THEN {1} ELSE {})]
   /\ rd'  = IF iv[2] = 2 THEN <<regval(iv[3], iv[4])>> ELSE <<>>
   /\ obs' = [okirq |-> okirq, okpend |-> okpend, okclear |-> okclear, okstatus |-> okstatus,
